@@ -1,6 +1,6 @@
 """Generator for C05: programs nesting the derived forms (begin let let* cond case and or when unless) with a ticking
 expression in every sub-form position."""
-from .sx import S, Sym, show, q
+from .sx import S, Sym, Dot, Vec, Real, show, q
 
 FORMS = ["begin", "let", "let*", "cond", "case", "and", "or", "when", "unless"]
 POSITIONS = {
@@ -144,6 +144,14 @@ class DG:
             elif kk < 0.35 and env:
                 key = S(r.choice(env))      # a variable as key
             pool = [S("a"), S("b"), 0, 1, 2, 3, 4, 5, 6, True]
+            if r.random() < 0.15:
+                # keys that are freshly made lists, pairs, vectors or an inexact number: case compares with eqv?, so no datum of equal structure
+                # (or equal value but other exactness) is selected
+                kx, datum = r.choice([([S("list"), 1, 2], [1, 2]), ([S("cons"), 1, 2], Dot([1], 2)), ([S("vector"), 1, 2], Vec([1, 2])), ([S("list")], []), ([S("list"), q(S("a"))], [S("a")]),
+                                      ([S("/"), 4, 2], 2), (Real.of(2.0), 2), ([S("list"), [S("list"), 1]], [[1]])])
+                key = self.tk(kx)
+                keyval = None
+                pool = pool + [datum, datum]
             clauses = []
             for i in range(n):
                 data = r.sample(pool, r.randint(1, 3))
